@@ -294,7 +294,7 @@ Section Fill.
       match goal with H : Valid arr c |- _ => rename H into HVc end.
       destruct (Valid_param arr c HVc) as [-> | Es].
       + rewrite to_list_Par in Hl. apply bind_Ok in Hl as (vs0 & Hl0 & Hl). inversion Hl; subst.
-        cbn [fillna_p type_of_p]. eapply FR_rmap; [apply IHc; assumption|].
+        cbn [fillna_p type_of_p]. eapply FR_rmap; [apply IHc; eassumption|].
         intros c' ws0 Hc' HF. exists ws0. split; [exact HF|]. rewrite to_list_Par, Hc'. reflexivity.
       + (* a string: left alone *)
         assert (Hp : ParamOk arr c) by (inversion HVc; subst; try assumption; discriminate).
